@@ -148,28 +148,87 @@ func (m *vfC16Mon) completed(p string) {
 	}
 }
 
+// vfC16T reads a time stamp of the limiter's lists whatever its representation (time.Time, unix
+// seconds / nanoseconds): the projection is L2 evidence and must not stop the harness from building.
+func vfC16T(x any) time.Time {
+	switch v := x.(type) {
+	case time.Time:
+		return v
+	case int64:
+		if v > 1e14 {
+			return time.Unix(0, v)
+		}
+		return time.Unix(v, 0)
+	case int:
+		return time.Unix(int64(v), 0)
+	case time.Duration:
+		return time.Unix(0, int64(v))
+	}
+	return time.Time{}
+}
+
+var vfC16Phases = []time.Duration{0, 1, 100 * time.Millisecond, 500 * time.Millisecond, 900 * time.Millisecond, 999999999}
+
 type vfC16Lim struct {
 	w     int
-	tick  time.Duration
+	ticks []time.Time // tick instants so far; scale map: any W consecutive ticks span >= 60 s, any W-1 span < 60 s
+	rnd   *rand.Rand
 	peers []string
 	clk   *vfC16Clock
 	r     *rateLimiter
 	mon   *vfC16Mon
 }
 
-func vfC16NewLim(rpm, ppr, ddr, conc, w int, peers []string) *vfC16Lim {
-	clk := &vfC16Clock{t: time.Date(2024, 1, 1, 0, 0, 0, 0, time.UTC)}
-	return &vfC16Lim{w: w, tick: vfC16Window / time.Duration(w), peers: peers, clk: clk,
+func vfC16NewLim(rpm, ppr, ddr, conc, w int, peers []string, seed int64) *vfC16Lim {
+	rnd := rand.New(rand.NewSource(seed))
+	// a non-zero, non-integral unix time: one of the fixed sub-second phases, sometimes plus a random one
+	t0 := time.Date(2024, 1, 1, 0, 0, 0, 0, time.UTC).Add(time.Duration(rnd.Intn(3600)) * time.Second).Add(vfC16Phases[rnd.Intn(len(vfC16Phases))])
+	if rnd.Intn(3) == 0 {
+		t0 = t0.Add(time.Duration(rnd.Int63n(int64(time.Second))))
+	}
+	clk := &vfC16Clock{t: t0}
+	return &vfC16Lim{w: w, ticks: []time.Time{t0}, rnd: rnd, peers: peers, clk: clk,
 		r:   &rateLimiter{RPM: rpm, PerPeerRPM: ppr, DialDataRPM: ddr, MaxConcurrentRequestsPerPeer: conc, now: clk.Now},
 		mon: vfC16NewMon(rpm, ppr, ddr, conc)}
 }
 
+// age = number of model ticks since t (capped at W)
 func (s *vfC16Lim) age(t time.Time) int {
-	a := int(s.clk.t.Sub(t) / s.tick)
-	if a > s.w {
-		a = s.w
+	k := len(s.ticks) - 1
+	a := 0
+	for k > 0 && s.ticks[k].After(t) && a < s.w {
+		k--
+		a++
 	}
 	return a
+}
+
+// nextTick advances the clock by one model tick.  Tick lengths vary in [60s/W, 60s/(W-1)) with
+// nanosecond resolution, so that W ticks always span at least a minute and W-1 ticks always less:
+// the model's "age >= W" is exactly "at least 60 s old", while the real instants have arbitrary
+// sub-second phases (e.g. two ticks spanning 59.1 s from x.9 s to y.0 s).
+func (s *vfC16Lim) nextTick() {
+	lo := int64(vfC16Window) / int64(s.w)
+	hi := int64(vfC16Window)
+	if s.w > 1 {
+		hi = int64(vfC16Window) / int64(s.w-1)
+	}
+	var d int64
+	switch s.rnd.Intn(4) {
+	case 0:
+		d = lo + s.rnd.Int63n(int64(time.Second))
+	case 1:
+		d = hi - 1 - s.rnd.Int63n(int64(time.Second))
+	case 2:
+		d = lo
+	default:
+		d = lo + s.rnd.Int63n(hi-lo)
+	}
+	s.clk.t = s.clk.t.Add(time.Duration(d))
+	s.ticks = append(s.ticks, s.clk.t)
+	if len(s.ticks) > s.w+2 {
+		s.ticks = s.ticks[len(s.ticks)-s.w-2:]
+	}
 }
 
 // project reads the abstract state out of the real limiter (in-package; L2 evidence only).
@@ -178,21 +237,21 @@ func (s *vfC16Lim) project() map[string]any {
 	defer s.r.mu.Unlock()
 	reqs := []any{}
 	for _, e := range s.r.reqs {
-		reqs = append(reqs, map[string]any{"p": string(e.PeerID), "a": s.age(e.Time)})
+		reqs = append(reqs, map[string]any{"p": string(e.PeerID), "a": s.age(vfC16T(e.Time))})
 	}
 	pr := map[string]any{}
 	ip := map[string]any{}
 	for _, p := range s.peers {
 		l := []any{}
 		for _, t := range s.r.peerReqs[peer.ID(p)] {
-			l = append(l, s.age(t))
+			l = append(l, s.age(vfC16T(t)))
 		}
 		pr[p] = l
 		ip[p] = s.r.inProgressReqs[peer.ID(p)]
 	}
 	dd := []any{}
 	for _, t := range s.r.dialDataReqs {
-		dd = append(dd, s.age(t))
+		dd = append(dd, s.age(vfC16T(t)))
 	}
 	return map[string]any{"reqs": reqs, "peerReqs": pr, "ddReqs": dd, "inProg": ip}
 }
@@ -235,7 +294,7 @@ func (s *vfC16Lim) step(op vfh.Op, monitorOnly bool) (cls, what string, exp, got
 		s.r.CompleteRequest(peer.ID(op.S("p")))
 		s.mon.completed(op.S("p"))
 	case "tick":
-		s.clk.t = s.clk.t.Add(s.tick)
+		s.nextTick()
 	default:
 		return "L2:unknown-op", "unknown op " + op.Name(), nil, nil
 	}
@@ -289,9 +348,9 @@ func TestVerifC16Limiter(t *testing.T) {
 			rpms[fi] = rpm
 			inst := filepath.Base(f)
 			cfg := map[string]any{"file": inst, "RPM": rpm, "PerPeerRPM": ppr, "DialDataRPM": ddr, "MaxConc": conc, "W": w,
-				"scale": fmt.Sprintf("1 tick = %v", vfC16Window/time.Duration(w))}
+				"scale": "tick lengths vary in [60s/W, 60s/(W-1)) with ns resolution, start at a non-integral unix time"}
 			for _, wk := range walks {
-				sys := vfC16NewLim(rpm, ppr, ddr, conc, w, peers)
+				sys := vfC16NewLim(rpm, ppr, ddr, conc, w, peers, vfh.Seed()*15485863+int64(fi)*1000003+int64(wk.Walk))
 				var prefix []vfh.Op
 				prev := string(wk.Init)
 				left := false // the real limiter left the model (L2): the rest of the walk runs under the L1 monitor only
@@ -373,7 +432,7 @@ func TestVerifC16Patterns(t *testing.T) {
 			for k := 0; k < p.peers; k++ {
 				peers = append(peers, fmt.Sprintf("peer-%d", k))
 			}
-			sys := vfC16NewLim(p.rpm, p.ppr, p.ddr, p.conc, 3, peers)
+			sys := vfC16NewLim(p.rpm, p.ppr, p.ddr, p.conc, 3, peers, vfh.Seed()*999983+int64(i))
 			cfg := map[string]any{"seq": i, "RPM": p.rpm, "PerPeerRPM": p.ppr, "DialDataRPM": p.ddr, "MaxConc": p.conc, "peers": p.peers, "mode": mode}
 			var hist []string
 			n := 0
@@ -441,7 +500,15 @@ func TestVerifC16Patterns(t *testing.T) {
 						cand = append(cand, sys.mon.dd[0])
 					}
 					if len(cand) > 0 {
-						next = cand[rnd.Intn(len(cand))].Add(vfC16Window + time.Duration(rnd.Intn(3)-1))
+						c := cand[rnd.Intn(len(cand))]
+						switch rnd.Intn(3) {
+						case 0: // exactly (+-1 ns) one minute later
+							next = c.Add(vfC16Window + time.Duration(rnd.Intn(3)-1))
+						case 1: // a little less than a minute later: still inside the window
+							next = c.Add(vfC16Window - time.Duration(1+rnd.Int63n(int64(time.Second))))
+						default: // the start of the wall-clock second in which the minute ends
+							next = c.Add(vfC16Window).Truncate(time.Second)
+						}
 					}
 				case zero:
 				case mode == 0:
@@ -864,7 +931,13 @@ type vfC16Req struct {
 	normal   bool // a well-formed DialRequest was sent
 }
 
-type vfC16Run struct{ raw, data, n int64 } // n messages of raw bytes each carrying data dial-data bytes
+// vfC16Run: n messages of raw stream bytes each.  A well-formed DialDataResponse is credited with its
+// data field (data bytes, once completely read); a raw frame (rawCredit) is credited with every stream
+// byte of it the server has read - the most dial data those bytes could possibly carry.
+type vfC16Run struct {
+	raw, data, n int64
+	rawCredit    bool
+}
 
 func (q *vfC16Req) isDone() bool {
 	select {
@@ -883,11 +956,15 @@ func (q *vfC16Req) delivered(read int64) int64 {
 		if c <= 0 {
 			break
 		}
-		k := c / r.raw
-		if k > r.n {
-			k = r.n
+		if r.rawCredit {
+			d += min(c, r.n*r.raw)
+		} else {
+			k := c / r.raw
+			if k > r.n {
+				k = r.n
+			}
+			d += k * r.data
 		}
-		d += k * r.data
 		c -= r.n * r.raw
 	}
 	return d
@@ -1076,6 +1153,33 @@ func (s *vfC16Srv) send(q *vfC16Req, sizes []int64) {
 	q.st.feed(buf)
 }
 
+// sendRaw appends n copies of a raw frame (delimiter included) to the stream; credited by stream bytes.
+func (s *vfC16Srv) sendRaw(q *vfC16Req, frame []byte, n int64) {
+	buf := make([]byte, 0, int64(len(frame))*n)
+	for i := int64(0); i < n; i++ {
+		buf = append(buf, frame...)
+	}
+	q.runs = append(q.runs, vfC16Run{raw: int64(len(frame)), n: n, rawCredit: true})
+	q.sent += int64(len(buf)) // upper bound of what was carried
+	s.stats["raw_frames"] += int(n)
+	s.stats["dial_data_stream_bytes"] += len(buf)
+	q.st.feed(buf)
+}
+
+// vfC16Frame builds a delimited frame: oneof tag 0x22, outer length prefix `outer`, data tag 0x0a, inner
+// length prefix `inner`, then body; the delimiter says `delim` bytes (0 = the true length).
+func vfC16Frame(outer, inner uint64, body []byte, delim uint64) []byte {
+	m := []byte{0x22}
+	m = binary.AppendUvarint(m, outer)
+	m = append(m, 0x0a)
+	m = binary.AppendUvarint(m, inner)
+	m = append(m, body...)
+	if delim == 0 {
+		delim = uint64(len(m))
+	}
+	return append(binary.AppendUvarint(nil, delim), m...)
+}
+
 // checkDials applies the L1 clauses to every new use of the dialer host.
 func (s *vfC16Srv) checkDials(q *vfC16Req) (string, string, any) {
 	evs := s.dialer.takeEvents()
@@ -1199,12 +1303,12 @@ func (s *vfC16Srv) project(p string) map[string]any {
 	now := time.Now()
 	acc, dd := 0, 0
 	for _, e := range l.reqs {
-		if now.Sub(e.Time) < vfC16Window {
+		if now.Sub(vfC16T(e.Time)) < vfC16Window {
 			acc++
 		}
 	}
 	for _, t := range l.dialDataReqs {
-		if now.Sub(t) < vfC16Window {
+		if now.Sub(vfC16T(t)) < vfC16Window {
 			dd++
 		}
 	}
@@ -1309,6 +1413,44 @@ func (s *vfC16Srv) step(op vfh.Op, maxAddrs int) (cls, what string, exp, got any
 				sizes[i] = d
 			}
 			s.send(q, sizes)
+		case "lie":
+			// tiny frames whose data-length prefix claims far more than the frame holds; enough of them to
+			// satisfy a reader that believes the prefix
+			claim := []uint64{8000, 8192, 5000, 200, 127}[s.rnd.Intn(5)]
+			body := make([]byte, 1+s.rnd.Intn(3))
+			outer := []uint64{uint64(3 + len(body)), claim + 3, 2}[s.rnd.Intn(3)]
+			s.sendRaw(q, vfC16Frame(outer, claim, body, 0), rem/int64(claim)+2)
+		case "fields":
+			// the data split over several small fields of one short frame (below the per-message minimum)
+			var inner []byte
+			for i := 0; i < 5; i++ {
+				inner = append(append(inner, 0x0a, 10), make([]byte, 10)...)
+			}
+			m := append([]byte{0x22, byte(len(inner))}, inner...)
+			s.sendRaw(q, append(binary.AppendUvarint(nil, uint64(len(m))), m...), rem/50+2)
+		case "trunc":
+			switch s.rnd.Intn(3) {
+			case 0: // the delimiter promises 5000 bytes, 3000 arrive, then the client closes
+				f := vfC16Frame(4996, 4993, make([]byte, 2990), 5000)
+				s.sendRaw(q, f, 1)
+			case 1: // truncated inside the data field of an otherwise honest message
+				f := vfC16DataMsg(4000)
+				s.sendRaw(q, f[:1500+s.rnd.Intn(2000)], 1)
+			default: // the delimiter promises fewer bytes than are sent: the tail is read as the next frame
+				f := vfC16Frame(146, 144, make([]byte, 144+30), 150)
+				s.sendRaw(q, f, 1)
+			}
+			q.st.clientClose()
+		case "pad":
+			// full-size frames, data prefix claiming little, the rest unknown-field padding: counted by
+			// frame length (4096 - 6 header bytes each)
+			body := append(make([]byte, 10), 0x7a, 0xe9, 0x1f) // field 15, length-delimited, padding follows
+			body = append(body, make([]byte, 4096-5-len(body))...)
+			f := vfC16Frame(4093, 10, body, 0)
+			if len(f) != 4098 {
+				s.t.Fatalf("pad frame has %d bytes", len(f))
+			}
+			s.sendRaw(q, f, (rem+4089)/4090)
 		case "huge":
 			n := uint64(maxMsgSize + 1 + s.rnd.Intn(20000))
 			b := binary.AppendUvarint(nil, n)
